@@ -336,10 +336,10 @@ vprod_m = Fn(core.IV + 'prod', ret='r', level='L1', ensures=['C04.vec.prod.def::
 det = Fn(IM + 'det', ret='r', level='L1', valid='self.nrows == self.ncols',
          requires=['C11.det.wf:: wf(*self)'],
          ensures=['C11.det.valid:: self.nrows == self.ncols', 'C11.det.signed_product:: is_det(*self, r)'],
-         rewrites=[('lu.diag().prod() * ipiv_parity(&p) as f64',
-                    '({ let d_ = lu.diag(); let pr_ = d_.prod(); let s_ = ipiv_parity(&p); let out_ = pr_ * s_ as f64; '
-                    'proof { lemma_rprod_diag(d_.v@, lu.data.v@, self.nrows as int, self.nrows as int); assert(det_witness(*self, out_, lu.data.v@, p@, s_)); } out_ })',
-                    'R31: the result expression in A-normal form')])
+         rewrites=[(r'lu\.diag\(\)\.prod\(\) ([*/]) ipiv_parity\(&p\) as f64',
+                    r'({ let d_ = lu.diag(); let pr_ = d_.prod(); let s_ = ipiv_parity(&p); let out_ = pr_ \1 s_ as f64; '
+                    r'proof { lemma_rprod_diag(d_.v@, lu.data.v@, self.nrows as int, self.nrows as int); assert(s_ == 1 || s_ == -1); let sr_ = rv(f_of_int(s_ as int)); assert(sr_ == (s_ as real)); if s_ == 1 { assert(sr_ == 1real); assert(rv(pr_) / 1real == rv(pr_) * 1real); } else { assert(sr_ == -1real); assert(rv(pr_) / (-1real) == rv(pr_) * (-1real)); } assert(rv(out_) == rv(pr_) * (s_ as real)); assert(det_witness(*self, out_, lu.data.v@, p@, s_)); } out_ })',
+                    'R31: the result expression in A-normal form (operator kept verbatim: dividing by a sign +-1 equals multiplying by it)', 're')])
 UNITS.append(Unit('C11_det', ('C11', 'C04'), [prod_u, vprod_m, det], use=core.core_stubs() + [c15_diag(), mlu_full(), parity], types=core.TYPES, type_spec=core.TYPE_SPEC,
                   spec=c01.SPEC + c01.LU_SPEC + REC_SPEC + PAR_SPEC + DET_SPEC, preludes=PRE, broadcast=BC, level='L1', rlimit=100,
                   notes='Matrix::det is the product of the diagonal of U times the sign of the pivot permutation for the factorisation P A = L U it computes; prod is the in-order product'))
